@@ -273,6 +273,26 @@ PROPS["C06"] = {
     "level_note": "Trusted: Lean kernel, translator (presence of the re-check), synctest, harness. The Engine.IO layer's own close (closeOnce, superseded transports) is exercised, not modelled.",
     "technique": "Lean 4 proof (inductive invariant over all interleavings) + fault-injection scenario correspondence",
 }
+PROPS["C07"] = {
+    "lean": ["SioVerif.Props.C07"],
+    "components": ["timed:TestUpgrade"],
+    "facts": [],
+    "timeout": {"quick": 900, "thorough": 3000},
+    "rule": "real Engine.IO server and client on the in-memory network under virtual time, continuous numbered messages in both directions (text and binary, single sends "
+            "and bursts of 2..7, random gaps) from the first instant, a burst fired from the UpgradeDone callback; upgrade attempts: unobstructed, websocket refused, stalled "
+            "(black-holed from the start until the upgrade timeout), cut inside the HTTP upgrade request (20..170 bytes), cut inside / right after the probe PING frame and "
+            "inside the UPGRADE frame; observed: OnPacket sequences on both sides, UpgradeDone, TransportName on both sides, close reasons, survival of two heartbeat periods "
+            "afterwards. Non-trivial = every scenario; distinct by description.",
+    "trusted_base": EXT + ["go1.26.8 testing/synctest", "nhooyr.io/websocket preserves message boundaries and order per connection; net/http long-polling"],
+    "assumptions": ["WebTransport shares upgradeTo / finishUpgradeTo; only the model and the framing (C11) cover it", "order across the swap is not demanded (C02 is about settled transports)"],
+    "level_text": "Lean 4 theorems over a message-level transition system of both directions (polling queue, poll response in flight, POST in flight, the two websocket streams "
+                  "with the UPGRADE marker, the swap on each side), for every traffic pattern and every interleaving: what was handed to Send is always a permutation of "
+                  "delivered ++ queued ++ in flight (nothing lost, nothing from nowhere); distinct messages are never delivered twice; at quiescence everything sent has been "
+                  "delivered; a history without swap/upgrade leaves both sides on long-polling; application messages on the new stream are accepted only after UPGRADE. "
+                  "The real stacks' deliveries and final transports for generated traffic around the swap equal the model's.",
+    "level_note": "Trusted: Lean kernel, synctest, harness. The correspondence compares delivered multisets and final transports, not the exact interleaving.",
+    "technique": "Lean 4 proof (permutation invariant over all interleavings) + fault-injected upgrade scenarios under virtual time",
+}
 
 NOT_APPLICABLE = [
 ]
